@@ -135,6 +135,15 @@ def inline_body(facts, key, opaque):
                     done.append(target)
                     progress = True
                     break
+            if path == "std::iter::Iterator::try_for_each" and len(t["args"]) == 2 and len(ce.get("args", [])) >= 3:
+                # generic arguments: [Self, F, R]
+                ret_ty = ce["args"][2]
+                if ret_ty.startswith("std::result::Result<(),"):
+                    cj = model_try_for_each(ce["args"][0], ce["args"][1], ret_ty, blocks[b].get("span"))
+                    _splice(blocks, locals_, b, cj, t["args"], istack, "std-model:Iterator::try_for_each")
+                    done.append("std-model:Iterator::try_for_each")
+                    progress = True
+                    break
             if path in CLOSURE_CALLS and len(t["args"]) == 2:
                 if view is None:
                     view = Body(facts, key, dict(j, blocks=blocks, locals=locals_), ssa=False)
@@ -175,6 +184,49 @@ def inline_body(facts, key, opaque):
     if not done and not rewritten:
         return None
     return blocks, locals_, done + ["<fn item call>"] * rewritten
+
+
+def _pl(l, *proj):
+    return {"l": l, "proj": list(proj), "s": "_%d" % l}
+
+
+def _mv(l, *proj):
+    return {"o": "move", "place": _pl(l, *proj)}
+
+
+def _call(path, args, dest, target, trait=None, item=None):
+    ce = {"path": path, "full": path, "args": [], "local": False, "resolved": None}
+    if trait:
+        ce["trait"] = trait
+        ce["item"] = item
+    return {"t": "call", "callee": ce, "args": args, "dest": _pl(dest), "target": target, "unwind": "continue", "model": True}
+
+
+def model_try_for_each(iter_ty, clo_ty, ret_ty, span):
+    """MIR model of `Iterator::try_for_each(iter, f)` for a closure returning Result<(), E> (rust-src
+    core/src/iter/traits/iterator.rs: `fn call(f) -> impl FnMut((), T) -> R { move |(), x| f(x) }; self.try_fold((), call(f))`
+    and try_fold's `while let Some(x) = self.next() { accum = f(accum, x)?; } try { accum }`):
+        loop { match iter.next() { None => return Ok(()), Some(x) => match f(x) { Ok(()) => {}, r @ Err(_) => return r } } }"""
+    L = lambda ty: {"ty": ty, "mut": True, "model": True}  # noqa: E731
+    locals_ = [L(ret_ty), L(iter_ty), L(clo_ty), L("&mut " + iter_ty), L("std::option::Option<Item>"), L("isize"), L("Item"), L(ret_ty), L("isize"), L("&mut " + clo_ty), L("(Item,)"), L("()")]
+    A = lambda place, rv: {"s": "assign", "place": place, "rv": rv, "line": (span or {}).get("line"), "model": True}  # noqa: E731
+    B = lambda stmts, term: {"stmts": stmts, "term": term, "cleanup": False, "span": span, "model": True}  # noqa: E731
+    blocks = [
+        B([A(_pl(3), {"r": "ref", "bk": "mut", "place": _pl(1)})], _call("std::iter::Iterator::next", [_mv(3)], 4, 1, "std::iter::Iterator", "next")),
+        B([A(_pl(5), {"r": "discr", "place": _pl(4), "ety": "std::option::Option<Item>", "enum": "std::option::Option", "variants": ["None", "Some"]})],
+          {"t": "switch", "discr": _mv(5), "discr_ty": "isize", "arms": [[0, 2], [1, 3]], "otherwise": 6}),
+        B([A(_pl(11), {"r": "aggregate", "ak": "tuple", "ops": []}),
+           A(_pl(0), {"r": "aggregate", "ak": "adt", "path": "std::result::Result", "variant": "Ok", "variant_idx": 0, "args": [], "fields": ["0"], "ops": [_mv(11)]})], {"t": "return"}),
+        B([A(_pl(6), {"r": "use", "op": _mv(4, {"p": "downcast", "name": "Some", "i": 1}, {"p": "field", "i": 0, "name": "0"})}),
+           A(_pl(9), {"r": "ref", "bk": "mut", "place": _pl(2)}),
+           A(_pl(10), {"r": "aggregate", "ak": "tuple", "ops": [_mv(6)]})],
+          _call("std::ops::FnMut::call_mut", [_mv(9), _mv(10)], 7, 4, "std::ops::FnMut", "call_mut")),
+        B([A(_pl(8), {"r": "discr", "place": _pl(7), "ety": ret_ty, "enum": "std::result::Result", "variants": ["Ok", "Err"]})],
+          {"t": "switch", "discr": _mv(8), "discr_ty": "isize", "arms": [[0, 0], [1, 5]], "otherwise": 6}),
+        B([A(_pl(0), {"r": "use", "op": _mv(7)})], {"t": "return"}),
+        B([], {"t": "unreachable"}),
+    ]
+    return {"kind": "fn", "arg_count": 2, "locals": locals_, "blocks": blocks, "span": span, "debug": []}
 
 
 def _tuple_arity(ty):
